@@ -92,6 +92,12 @@ class {C1} {{
     }})
 }}
 ''', ['1!+2;', '1+2;', '1!;', 'x=1!', 'x=-1', 'x=1', '1!+', '']),
+    # a parameter that is called with arguments; fields and let variables next to it
+    ('''start = {T1}({T2}, /[a-z]/) | {C1}
+{T1}({p1}, {p2}) = [{p1}({p2}), {p1}("!")?]
+{T2}({p3}) = "<" >> {p3}
+class {C1} {{ {f1}: /[0-9]/; let {f2}: "="; {f3}: let {v1} = /[0-9]/ in `({f1}, {v1})` }}
+''', ['<a<!', '<a', '1=2', '<a<', '', '1=']),
 ]
 
 NEUTRAL = {'R1': 'Alpha', 'R2': 'Beta', 'R3': 'Gamma', 'C1': 'Kappa', 'C2': 'Lambda', 'T1': 'Tau', 'T2': 'Upsilon',
@@ -265,6 +271,10 @@ def run(tier, seed, lean):
             'name used by generated code or runtime': {n for n in runtime_locals if not hasattr(builtins, n)},
             'builtin read by the runtime': set(rt_builtins) | {n for n in ids if hasattr(builtins, n)} | {'len', 'slice', 'list', 'id', 'object', 'dict', 'type'},
             'expression constructor': set(ctor_names),
+            # names that mean something to the translator or to the description language, but are ordinary identifiers
+            'submodule or helper of the expressions package': {n for n in dir(ex) if not n[:1].isupper()},
+            'identifier that begins with a keyword of the description language': {'letter', 'lets', 'let_x', 'classy', 'ignoredx', 'overrides', 'passx',
+                                                                                 'requiresx', 'whereabouts', 'inner', 'asx', 'extendsx', 'grammars', 'started', 'startx'},
         }
         for pool_name, pool in pools.items():
             cands = sorted(n for n in pool if n.isidentifier() and not keyword.iskeyword(n) and not n.startswith('_') and n not in API and n not in own_python)
@@ -289,6 +299,9 @@ def run(tier, seed, lean):
                     klass = None
                     if pool_name == 'builtin read by the runtime' or hasattr(builtins, name):
                         klass = f'runtime-builtin:{slot[0]}:{name}'
+                    elif pool_name.startswith('identifier that begins with a keyword'):
+                        kw = max((k for k in DESC_KEYWORDS | {'start'} if name.startswith(k)), key=len, default='none')
+                        klass = f'keyword-prefix:{kw}:{slot[0]}'
                     elif pool_name == 'expression constructor' and slot[0] in 'RCT':
                         klass = f'constructor-name:{name}'
                     try:
